@@ -55,7 +55,7 @@ def uuid_freshness(fresh_consts, formulas):
 
 def _ematch(hyps, g, axioms, timeout_ms):
     se = z3.Solver()
-    se.set("timeout", min(timeout_ms, 4000))
+    se.set("timeout", int(max(4000, timeout_ms * 0.4)))
     se.set("smt.mbqi", False)
     se.set("smt.auto_config", False)
     for a_ in axioms:
@@ -63,7 +63,7 @@ def _ematch(hyps, g, axioms, timeout_ms):
     se.add(*hyps)
     se.add(z3.Not(g))
     from .inst import guarded_check
-    return guarded_check(se, min(timeout_ms, 4000)) == z3.unsat
+    return guarded_check(se, int(max(4000, timeout_ms * 0.4))) == z3.unsat
 
 
 def solve(hyps, goal, axioms=(), timeout_ms=10000, want_model=True):
